@@ -523,6 +523,20 @@ def scen_c17(binary):
                 rc_all |= fail("goal %s (already applied / unknown): exit %d, tree changed=%s" % (goal, rc, full_snapshot(root) != before))
     finally:
         shutil.rmtree(root, ignore_errors=True)
+    # the same with EVERY patch of the series applied already, at default verbosity and with --quiet
+    s = sample_series(False)
+    root = tempfile.mkdtemp()
+    try:
+        s.materialize(root)
+        push(binary, root, ["-a", "--threads", "1"])
+        before = full_snapshot(root)
+        for extra in ([], ["--quiet"]):
+            for goal in ("p1.patch", "nosuch.patch"):
+                rc, out = push(binary, root, [goal, "--threads", "1"] + extra)
+                if rc != 1 or full_snapshot(root) != before:
+                    rc_all |= fail("fully applied series, goal %s %s (already applied / unknown): exit %d (expected 1), tree changed=%s" % (goal, " ".join(extra), rc, full_snapshot(root) != before))
+    finally:
+        shutil.rmtree(root, ignore_errors=True)
     # a file deleted earlier in the run is "absent" for later patches of the same run
     for threads in ("1", "2"):
         root = tempfile.mkdtemp()
